@@ -438,6 +438,48 @@ def check_ast_shapes(prop, tier, repo, verif):
     return res
 
 
+def check_decoder_mutations_full(prop, tier, repo, verif):
+    t0 = time.time()
+    nrand = 1000000 if tier == 'thorough' else 300000
+    res = {'unit': 'bounded:decoder_mutations_full', 'engine': 'bounded run of the real decoders / serialisers / assembler (tools/decodefull, adapted from the third C19 sub-agent\'s demo; release build with debug assertions and overflow checks)', 'status': 'ok',
+           'failures': [], 'undecided': [], 'bounded': True,
+           'bound': '134 valid encodings (ProgramAst / ModuleAst shapes with and without imports and source locations, ProcedureAst, ProcReExport, ModuleImports, LibraryPath, LibraryNamespace, ProcedureName, ProcedureId, Version, Node, Instruction, AdviceInjectorNode, docs / labels / paths of MAXIMAL length, 3 MaslLibraries, Kernel, ProgramInfo, StackInputs, StackOutputs) x every byte set to 0x00 / 0xff / +1 / -1 and every bit flip (first and last 300 offsets + every integer field for encodings over 4 KiB), truncations, insertions, deletions, every integer field (found with a tracing reader) rewritten to 0, 1, 2, max/2, max/2+1, max-1, max and p-1, p, p+1 = 187054 mutants, plus %d pseudo-random short strings to all 20 decoders; per accepted value: re-serialise (a panic is a failure), decode again, equal, stable bytes; integer constructors with p-1, p, p+1, 2^64-1 in every position' % nrand}
+    binp, err = build_tool(repo, verif, 'decodefull', release=True)
+    if binp is None:
+        res['status'] = 'undecided'
+        res['undecided'].append('decodefull does not build against the current tree: ' + err)
+        return res
+    env = dict(os.environ)
+    env['C19_RANDOM_INPUTS'] = str(nrand)
+    wd = os.path.join(verif, '.gen', 'decodefull')
+    p = subprocess.run([binp], stdout=subprocess.PIPE, stderr=subprocess.PIPE, text=True, env=env, cwd=wd)
+    m = re.search(r'SUMMARY seeds=(\d+) mutants=(\d+) random=(\d+) failures=(\d+)', p.stdout)
+    if not m:
+        res['status'] = 'undecided'
+        res['undecided'].append('decodefull gave no summary (abort?): ' + (p.stdout + p.stderr)[-500:])
+        return res
+    seen = set()
+    for ln in p.stdout.split('\n'):
+        mm = re.match(r'FAILCASE (\S+) :: (.*?) :: (.*?) :: (.*?) :: (.*)', ln)
+        if not mm:
+            continue
+        codec, stage, detail, origin, hx = mm.groups()
+        key = '%s:%s' % (codec, re.sub(r'[^A-Za-z0-9]+', '-', stage).strip('-')[:60])
+        if key in seen:
+            continue
+        seen.add(key)
+        res['failures'].append({'obligation': '%s/bounded/decoder_mutations_full#%s' % (prop, key), 'message': '%s: %s (%s) on %s' % (codec, stage, detail[:200], origin[:200]),
+                                'rendered': ln[:1800], 'origins': ['assembly/src/ast', 'assembly/src/library', 'assembly/src/procedures/mod.rs', 'core/src/program', 'core/src/stack', 'processor/src/host/advice/inputs.rs'],
+                                'failing_input': {'decoder': codec, 'problem': stage, 'detail': detail[:400], 'origin': origin[:300], 'bytes_hex': hx[:900], 'cmd': '.cache/target/release/decodefull'}})
+    if int(m.group(4)) and not res['failures']:
+        res['failures'].append({'obligation': '%s/bounded/decoder_mutations_full#failures' % prop, 'message': '%s failing inputs' % m.group(4), 'rendered': p.stdout[-800:], 'origins': []})
+    if res['failures']:
+        res['status'] = 'fail'
+    res['wall_s'] = round(time.time() - t0, 1)
+    res['checker_cmd'] = 'tools/decodefull (built against the current tree): %s seeds, %s mutants, %s random inputs' % (m.group(1), m.group(2), m.group(3))
+    return res
+
+
 def check_hash_invariance(prop, tier, repo, verif):
     t0 = time.time()
     res = {'unit': 'bounded:hash_invariance', 'engine': 'bounded run of the real assembler and processor (tools/hashprobe)', 'status': 'ok',
